@@ -30,15 +30,19 @@ Theorem C03_reject_bad_epoch : forall es1 es2, Forall space_enc es1 -> Forall sp
 Proof. exact C03u_reject_bad_epoch. Qed.
 Theorem C03_epoch_nonnumeric : forall c0 r c, In c r -> is_digit c = false -> parse_epoch (c0 :: r) = None.
 Proof. exact epoch_class_nonnumeric. Qed.
-Theorem C03_epoch_nonnumeric_head : forall c0 r, is_digit c0 = false -> c0 <> plus -> c0 <> minus -> parse_epoch (c0 :: r) = None.
-Proof. exact epoch_nonnumeric_head. Qed.
+Theorem C03_epoch_any_nondigit : forall x c, In c x -> is_digit c = false -> parse_epoch x = None.
+Proof. exact epoch_class_any_nondigit. Qed.
 Theorem C03_epoch_empty : parse_epoch [] = None.
 Proof. exact epoch_empty. Qed.
-Theorem C03_epoch_negative : forall ds n, dv 0 ds = Some n -> n <> 0%N -> parse_epoch (minus :: ds) = None.
-Proof. exact epoch_class_negative. Qed.
-Theorem C03_epoch_oversized : forall c r n, is_digit c = true -> dv 0 (c :: r) = Some n -> (max_int64 < n)%N ->
-  parse_epoch (c :: r) = None /\ parse_epoch (plus :: c :: r) = None.
+(* a sign is not part of an epoch: "-1:", "-0:" and "+1:" are all refused (repair of the r12 finding; strconv.ParseInt took them) *)
+Theorem C03_epoch_signed : forall ds, parse_epoch (minus :: ds) = None /\ parse_epoch (plus :: ds) = None.
+Proof. exact epoch_class_signed. Qed.
+(* oversized: beyond the Epoch field (a 64-bit uint on the modelled build) *)
+Theorem C03_epoch_oversized : forall c r n, dv 0 (c :: r) = Some n -> (max_epoch < n)%N -> parse_epoch (c :: r) = None.
 Proof. exact epoch_class_oversized. Qed.
+(* and every run of digits up to the field's maximum is accepted with exactly its value *)
+Theorem C03_epoch_accepted : forall c r n, dv 0 (c :: r) = Some n -> (n <= max_epoch)%N -> parse_epoch (c :: r) = Some n.
+Proof. exact epoch_class_accepted. Qed.
 Theorem C03_reject_nothing_after_colon : forall es1 es2, Forall space_enc es1 -> Forall space_enc es2 -> forall e,
   ends_plain (e ++ [colon]) -> has_space_u (e ++ [colon]) = false -> free colon e ->
   parse_u (List.concat es1 ++ (e ++ [colon]) ++ List.concat es2) = None.
@@ -92,5 +96,5 @@ Example C03_accepts : parse_u (s " 1:2.0-3~x ") = Some {| epoch := 1; upstream :
   /\ parse_u (s "1-2-") = Some {| epoch := 0; upstream := s "1-2"; revision := [] |}
   /\ to_string {| epoch := 0; upstream := s "1-2"; revision := [] |} = s "1-2-".
 Proof. vm_compute. repeat split. Qed.
-Example C03_near_misses : forall x, In x (map s ["a:0-0"; "-1:0-1"; "9223372036854775808:0-1"; "1:"; "0:0 0-1"; "a1"; "0:abc3-0"; "1.0_2"; "1.0-1_2"; "0:0-0:0"; "-"; "1:-"]%string) -> parse_u x = None.
+Example C03_near_misses : forall x, In x (map s ["a:0-0"; "-1:0-1"; "18446744073709551616:0-1"; "+1:1.0"; "-0:1.0"; "+0:1.0-1"; "1:"; "0:0 0-1"; "a1"; "0:abc3-0"; "1.0_2"; "1.0-1_2"; "0:0-0:0"; "-"; "1:-"]%string) -> parse_u x = None.
 Proof. intros x H. repeat (destruct H as [<-|H]; [vm_compute; reflexivity|]). contradiction. Qed.
